@@ -73,6 +73,7 @@ func runC02(w *eng.W) {
 		}
 		return b
 	}
+	neighbourTexts(w, "neighbour-code-points", do)
 	lookaheadForms(w, "lookahead-forms", do)
 	tokenSeqs(w, "full-seq", SigmaFull, pick(3, 4), do)
 	infixTriples(w, "infix-triples", do)
